@@ -23,6 +23,7 @@ type detObs struct {
 	cuOK   []int // per step: -1 not a C step, 0 VerifCatchUp returned an error, 1 returned nil
 	torn   string
 	tornAt int
+	feed   string // first disagreement between the L1-head feed and the stored head
 }
 
 func runDet(cs *Case) *detObs {
@@ -34,6 +35,10 @@ func runDet(cs *Case) *detObs {
 		l1.WithCatchUpChunkSize(cs.Chunk), l1.WithResubscribeDelay(time.Millisecond))
 	ctx := context.Background()
 	o := &detObs{tornAt: -1}
+	// the L1-head feed (buffer 1, at most one commit per step): an event iff the stored head was written
+	fsub := chain.SubscribeL1Head()
+	defer fsub.Unsubscribe()
+	prevHead, _ := observeHead(chain)
 	for i, s := range cs.Steps {
 		cu := -1
 		switch s.K {
@@ -59,6 +64,21 @@ func runDet(cs *Case) *detObs {
 		if torn != "" && o.torn == "" {
 			o.torn, o.tornAt = torn, i
 		}
+		select {
+		case fh := <-fsub.Recv():
+			got := "nil"
+			if fh != nil && fh.BlockHash != nil && isU64(fh.BlockHash) {
+				got = fmt.Sprintf("%d:%d", fh.BlockNumber, fh.BlockHash.Uint64())
+			}
+			if got != h && o.feed == "" {
+				o.feed = fmt.Sprintf("step %d: feed announced %s, stored head is %s", i, got, h)
+			}
+		default:
+			if h != prevHead && o.feed == "" {
+				o.feed = fmt.Sprintf("step %d: stored head changed %s -> %s without a feed event", i, prevHead, h)
+			}
+		}
+		prevHead = h
 		o.heads = append(o.heads, h)
 		o.bufs = append(o.bufs, observeBuffer(cl))
 		o.cuOK = append(o.cuOK, cu)
@@ -134,6 +154,9 @@ func evalDet(or *hx.Oracle, cs *Case) *evalRes {
 	res.line = cs.line(o.heads)
 	res.reply = or.Ask(res.line, 1)[0]
 	res.recs = parseReply(res.reply, len(cs.Steps))
+	if o.feed != "" {
+		res.verdicts = append(res.verdicts, verdict{"feed-mismatch", o.feed, true})
+	}
 	if o.torn != "" {
 		res.verdicts = append(res.verdicts, verdict{"torn-head",
 			fmt.Sprintf("step %d: %s", o.tornAt, o.torn), false})
